@@ -145,6 +145,7 @@ def main(prop, spec, argv, seed, chk):
         results = []
         viols = []
         lock = open(os.path.join(chk.BUILD, "sim.lock"), "w")
+        overloaded, retried, notjudged = [], [], []
 
         def do(cfg):
             for attempt in range(3):
@@ -156,6 +157,26 @@ def main(prop, spec, argv, seed, chk):
                     if not netns:
                         fcntl.flock(lock, fcntl.LOCK_UN)
                 key, msg = judge(cfg, rc, per_node, hashes, out)
+                if key == "too-few-blocks" and attempt < 2:
+                    # a wall-clock verdict: confirmed by one repetition, and not judged at all on a machine whose load
+                    # average exceeds 1.5 x its cores (two quick runs were a block or two short under a load average of
+                    # 70 on 16 cores; a run that stops after its first block is judged regardless)
+                    overloaded.append(os.getloadavg()[0] > 1.5 * (os.cpu_count() or 1))
+                    if not netns:
+                        fcntl.flock(lock, fcntl.LOCK_EX)
+                    try:
+                        rc2, wall2, per2, hashes2, out2 = run_one(binary, cfg, netns)
+                    finally:
+                        if not netns:
+                            fcntl.flock(lock, fcntl.LOCK_UN)
+                    key2, msg2 = judge(cfg, rc2, per2, hashes2, out2)
+                    if key2 != "too-few-blocks":
+                        retried.append(1)
+                        return rc2, wall2, per2, hashes2, out2, (None if key2 == "INFRA" else key2), msg2
+                    if overloaded[-1] or os.getloadavg()[0] > 1.5 * (os.cpu_count() or 1):
+                        notjudged.append(1)
+                        return rc2, wall2, per2, hashes2, out2, None, "not judged: machine overloaded"
+                    return rc2, wall2, per2, hashes2, out2, key2, msg2 + " (in two runs of this configuration)"
                 if key != "INFRA":
                     return rc, wall, per_node, hashes, out, key, msg
                 time.sleep(2)
@@ -188,6 +209,7 @@ def main(prop, spec, argv, seed, chk):
             "coverage": {
                 "evaluations": len(results), "distinct_nontrivial": len(nontriv),
                 "rule": spec["rule"], "samples": results[:6], "all_runs": results, "network_namespaces": netns,
+                "too_few_blocks_not_repeated": len(retried), "too_few_blocks_not_judged_machine_overloaded": len(notjudged),
             },
             "assumptions": spec["assumptions"], "wall_s": round(time.time() - t0, 1), "violations": len(viols),
         }
